@@ -74,6 +74,28 @@ def answerExpose (steps : List (Path × Val)) : String :=
     s!"plain={fmtBinds c.binds} com={fmtBinds c.comBinds} sat={fmtBool sat} rej={rej}/{plain.length + com.length}"
   | _, _ => "panic"
 
+/-- Positions index the concatenation plain ++ committed. -/
+def answerExposeAt (positions : List Nat) (steps : List (Path × Val)) : String :=
+  match exposeAll {} steps, formatInstance steps with
+  | some c, some (plain, com) =>
+    let sat := holdsB c.binds plain && holdsB c.comBinds com
+    let pp := positions.filter (· < plain.length)
+    let pc := (positions.filter (fun i => plain.length ≤ i ∧ i < plain.length + com.length)).map (· - plain.length)
+    let rej := rejectedEditsAt q c.binds plain pp + rejectedEditsAt q c.comBinds com pc
+    s!"plain={fmtBinds c.binds} com={fmtBinds c.comBinds} sat={fmtBool sat} rej={rej}/{positions.length}"
+  | _, _ => "panic"
+
+/-- Real proofs: the honest vector (length `n` = recorded count) passes the length check, one
+element more or less does not; edited vectors of the right length reach the PLONK verifier,
+which rejects them (the instance is absorbed in the transcript and bound by the copy
+constraints: properties C02/C03). -/
+def answerProof (n : Nat) : String :=
+  let honest := lengthCheck n (List.replicate n 0)
+  let longer := if lengthCheck n (List.replicate (n + 1) 0) then "ok" else "invalid-instances"
+  let shorter := if n = 0 then "n/a" else if lengthCheck n (List.replicate (n - 1) 0) then "ok" else "invalid-instances"
+  let tried := if n = 0 then 0 else 3
+  s!"honest={fmtBool honest} batch={fmtBool honest} longer={longer}/{longer} shorter={shorter} edits={tried}/{tried}"
+
 def answerNbpi (steps : List (Path × Val)) : String :=
   match exposeAll {} steps, formatInstance steps with
   | some c, some (plain, com) =>
@@ -94,6 +116,16 @@ def parseMsm (s : String) : Option Msm :=
     pure { bases := ps, scalars := sc, fixed := fx }
   | _ => none
 
+/-- Exposure of given cells against a given encoding, edits at `positions` (indices into
+plain ++ committed). -/
+def answerCells (positions : List Nat) (plainCells comCells plain com : List Nat) : String :=
+  let c := (({} : Chip).constrainAll plainCells).constrainAllCommitted comCells
+  let sat := holdsB c.binds plain && holdsB c.comBinds com
+  let pp := positions.filter (· < plain.length)
+  let pc := (positions.filter (fun i => plain.length ≤ i ∧ i < plain.length + com.length)).map (· - plain.length)
+  let rej := rejectedEditsAt q c.binds plain pp + rejectedEditsAt q c.comBinds com pc
+  s!"plain={fmtBinds c.binds} com={fmtBinds c.comBinds} sat={fmtBool sat} rej={rej}/{positions.length}"
+
 def answer (line : String) : String :=
   match words line with
   | ["mod", name] =>
@@ -112,10 +144,33 @@ def answer (line : String) : String :=
     match parseSteps ws with
     | some steps => answerExpose steps
     | none => "bad-op"
+  | "exposeat" :: pos :: ws =>
+    match parseNatList? pos, parseSteps ws with
+    | some pos, some steps => answerExposeAt pos steps
+    | _, _ => "bad-op"
+  | ["proof", _, n] =>
+    match n.toNat? with
+    | some n => answerProof n
+    | none => "bad-op"
   | "nbpi" :: ws =>
     match parseSteps ws with
     | some steps => answerNbpi steps
     | none => "bad-op"
+  | ["exposevk", pos, r] =>
+    match parseNatList? pos, parseNat? r with
+    | some pos, some r => answerCells pos (encVk q r) [] (encVk q r) []
+    | _, _ => "bad-op"
+  | ["exposeacc", pos, l, r] =>
+    match parseNatList? pos, curveParams "bls", parseMsm l, parseMsm r with
+    | some pos, some P, some l, some r => answerCells pos (cellsAcc q P l r) [] (encAcc q P l r) []
+    | _, _, _, _ => "bad-op"
+  | ["exposeaccc", pos, l, r] =>
+    match parseNatList? pos, curveParams "bls", parseMsm l, parseMsm r with
+    | some pos, some P, some l, some r =>
+      let cs := cellsAccCommitted q P l r
+      let e := encAccCommitted q P l r
+      answerCells pos cs.1 cs.2 e.1 e.2
+    | _, _, _, _ => "bad-op"
   | ["encvk", r] =>
     match parseNat? r with
     | some r => fmtHexList (encVk q r)
